@@ -293,6 +293,12 @@ func init() {
 			someCerts := certs
 			if len(someCerts) > 6 && tier() != "thorough" {
 				someCerts = append(append([]CorpusCert{}, certs[:3]...), certs[len(certs)-3:]...)
+			} else if len(someCerts) > 60 {
+				var pick60 []CorpusCert
+				for i := 0; i < 60; i++ {
+					pick60 = append(pick60, certs[i*len(certs)/60])
+				}
+				someCerts = pick60
 			}
 			oddPairs := 0
 			for _, a := range sections {
